@@ -68,6 +68,37 @@ theorem C14_style_text_is_ordered_sources (styles : Dict) (tag : String) (attrs 
   cases Dict.get attrs "style" <;> cases Dict.get attrs "id" <;> cases Dict.get attrs "class" <;>
     simp [decls_join, decls_addSel, decls_classes, decls_empty, List.append_assoc]
 
+/-! ### 1b. a selector that occurs in several rule blocks accumulates them in sheet order -/
+
+theorem decls_semicolon (a b : String) : decls (a ++ ";" ++ b) = decls a ++ decls b := by
+  unfold decls
+  rw [String.toList_append, String.toList_append]
+  have : (";" : String).toList = [';'] := rfl
+  rw [this, List.append_assoc, List.singleton_append, splitOn_append, List.filterMap_append]
+
+/-- **Accumulation.** When a selector already has rule text `old` and another block for it brings
+    `value`, the stored text becomes `old;value` — or `oldvalue` when `old` already ends in `;` —
+    and in both cases its declarations are those of `old` followed by those of `value`: blocks of
+    one selector apply in sheet order, whether or not they end with a semicolon. -/
+theorem C14_repeated_selector_accumulates (old value : String) :
+    decls ((if old.toList.getLast? = some ';' then old else old ++ ";") ++ value) = decls old ++ decls value := by
+  split
+  · rename_i h
+    obtain ⟨ys, hys⟩ := List.getLast?_eq_some_iff.mp h
+    have h1 : decls old = (splitOn ';' ys).filterMap declOf := by
+      unfold decls
+      rw [hys]
+      have : ys ++ [';'] = ys ++ ';' :: [] := rfl
+      rw [this, splitOn_append, List.filterMap_append]
+      simp [splitOn, declOf]
+    unfold decls at h1 ⊢
+    rw [String.toList_append, hys]
+    have : ys ++ [';'] ++ value.toList = ys ++ ';' :: value.toList := by simp
+    rw [this, splitOn_append, List.filterMap_append]
+    rw [hys] at h1
+    rw [h1]
+  · exact decls_semicolon old value
+
 /-! ### 2. the specified value of a property: the last source that declares it -/
 
 /-- the element's attribute dictionary before styles: XML attributes plus the `tag` entry -/
